@@ -37,7 +37,11 @@ func (e editor) enter(from *Selection, to *Selection, new bool, strategy editStr
 	}
 	defer func() {
 		if endErr := to.endEdit(NodeRequest{New: new, Source: to, EditRoot: root}, bubble); endErr != nil {
-			err = fmt.Errorf("error during endEdit: %v, previous error: %w", endErr, err)
+			if err == nil {
+				err = fmt.Errorf("error during endEdit: %w", endErr)
+			} else {
+				err = fmt.Errorf("error during endEdit: %w, previous error: %w", endErr, err)
+			}
 		}
 	}()
 	if meta.IsList(from.Meta()) && !from.InsideList {
